@@ -4,6 +4,7 @@ import MesonModel.DepPolicy.RegisterLemmas
 import MesonModel.DepPolicy.CacheLemmas
 import MesonModel.Generated.DepCacheTable
 import MesonModel.DepPolicy.WrapLemmas
+import MesonModel.DepPolicy.WrapFileLemmas
 /-
 C10 — Dependencies resolve by the documented fallback policy, from verified sources.
 
@@ -195,6 +196,26 @@ example : WellFormed r0 := by
 example : (lookup (fun _ _ => true) w0 r0).out = .found dFoo := by decide
 example : (policy (fun _ _ => true) w0 r0).1 = .found dFoo := by decide
 
+
+/-! non-vacuity of the precedence clause: `wrap_mode=nofallback`, `force_fallback_for=foo`, `foo` 1.0 on the system,
+`foo.wrap`-style `[provide]` entry: the subproject is configured and answers; without `force_fallback_for` the
+system's copy is returned and nothing is configured -/
+def wNF (fff : List Str) : World :=
+  { w0 with wrapMode := .nofallback, fff := fff, system := [("foo".toList, "1.0".toList)] }
+
+example : (lookup (fun _ _ => true) (wNF ["foo".toList]) r0).out = .found dFoo
+    ∧ Effect.configure "foosub".toList ∈ (lookup (fun _ _ => true) (wNF ["foo".toList]) r0).trace
+    ∧ (policy (fun _ _ => true) (wNF ["foo".toList]) r0).1 = .found dFoo := by decide
+example : (lookup (fun _ _ => true) (wNF ["foosub".toList]) r0).out = .found dFoo := by decide
+example : (lookup (fun _ _ => true) (wNF []) r0).out = .found { ident := sysIdent "foo".toList "1.0".toList, found := true, version := "1.0".toList }
+    ∧ (lookup (fun _ _ => true) (wNF []) r0).trace = [.cacheGet "foo".toList, .system "foo".toList] := by decide
+/-- the variant with the `nofallback` test first (early return) is *not* the documented table: on the same world it
+yields an error for the required lookup instead of the subproject's dependency -/
+example : (plan (wNF ["foo".toList]) r0).forced = true ∧
+    (if (wNF ["foo".toList]).wrapMode == .nofallback then (failure r0.required, wNF ["foo".toList])
+     else fallbackStep (fun _ _ => true) (wNF ["foo".toList]) r0 (plan (wNF ["foo".toList]) r0) "foosub".toList none).1 = POutcome.error
+    ∧ (fallbackStep (fun _ _ => true) (wNF ["foo".toList]) r0 (plan (wNF ["foo".toList]) r0) "foosub".toList none).1 = .found dFoo := by decide
+
 /-! ### registration ∘ lookup: `meson.override_dependency()` then `dependency()` -/
 
 /-- **Registration is the documented rule** ("if `static` is not given the override follows
@@ -250,6 +271,64 @@ example : ∃ t', overrideDependency [] "foo".toList dFoo none .both false = som
         { r0 with required := false }).out = .found dFoo := by
   refine ⟨_, rfl, ?_⟩
   decide
+
+/-! ### forced fallback takes precedence over `wrap_mode=nofallback`
+
+docs/markdown/Subprojects.md: "`--force-fallback-for=list` … takes precedence over `--wrap-mode=nofallback`". -/
+
+def stepTrace : Step → List Effect
+  | .cont _ t => t
+  | .hit _ _ t => t
+  | .raise _ _ t => t
+
+/-- the clause in the model of the code (`_do_subproject`): with `forcefallback` set the `nofallback` flag is not
+looked at — `Interpreter.do_subproject` is entered whatever `wrap_mode` says … -/
+theorem forced_enters_do_subproject (h : Holder) (wanted : List Str) (req : Bool) (w : World) (sp : Str)
+    (hf : h.forcefallback = true) :
+    Effect.doSubproject sp ∈ stepTrace (runCand sat h wanted req w (.subproject sp)) := by
+  have hd : ∀ (x : Except ErrKind World × List Effect), x = doSubproject w sp req → Effect.doSubproject sp ∈ x.2 := by
+    intro x hx
+    subst hx
+    unfold doSubproject
+    repeat (first | split | simp)
+  have h0 := hd _ rfl
+  simp only [runCand, hf]
+  simp only [Bool.not_true, Bool.false_and, Bool.false_eq_true, if_false]
+  generalize doSubproject w sp req = x at h0
+  rcases x with ⟨e, tr⟩
+  cases e with
+  | error k => simpa [stepTrace] using h0
+  | ok w' =>
+    simp only []
+    split <;> simp only [stepTrace, List.mem_append] <;> exact Or.inl h0
+
+/-- … while an unforced lookup under `nofallback` never gets there -/
+theorem unforced_nofallback_skips_do_subproject (h : Holder) (wanted : List Str) (req : Bool) (w : World) (sp : Str)
+    (hf : h.forcefallback = false) (hn : h.nofallback = true) :
+    stepTrace (runCand sat h wanted req w (.subproject sp)) = [] := by
+  simp [runCand, hf, hn, stepTrace]
+
+/-- the same clause in the documented decision table: a forced lookup under `wrap_mode=nofallback` whose fallback
+subproject can be configured is answered from that subproject … -/
+theorem policy_forced_beats_nofallback (w w' : World) (r : Request) (p : Plan) (sp : Str) (var : Option Str) (s s' : Sub)
+    (hf : p.forced = true) (hs : findSub w sp = some s) (hst : s.state = .no)
+    (hc : configured w s = some w') (hs' : getSubproject w' sp = some s') :
+    fallbackStep sat w r p sp var = fromSubproject sat w' r s' var := by
+  simp [fallbackStep, hf, hs, hst, hc, hs']
+
+/-- … and an unforced one is not: nothing suitable -/
+theorem policy_unforced_nofallback (w : World) (r : Request) (p : Plan) (sp : Str) (var : Option Str)
+    (hf : p.forced = false) (hn : w.wrapMode = .nofallback) :
+    fallbackStep sat w r p sp var = (failure r.required, w) := by
+  simp [fallbackStep, hf, hn]
+
+/-- `force_fallback_for` naming the dependency makes the plan forced, whatever `wrap_mode` is -/
+theorem fff_forces (w : World) (r : Request) (n : Str) (hn : n ∈ r.names) (hf : w.fff.contains n = true) :
+    forced0 w r = true := by
+  unfold forced0
+  have : r.names.any (fun n => w.fff.contains n) = true := List.any_eq_true.mpr ⟨n, hn, hf⟩
+  simp only [Bool.or_eq_true]
+  exact Or.inl (Or.inr this)
 
 end dep
 
@@ -443,5 +522,237 @@ example : (resolve (urlCfg false) (urlEnv [⟨true, false⟩] goodC) noFaults).p
     ∧ (resolve (urlCfg false) (urlEnv [⟨true, false⟩] goodC) noFaults).st.dirExists = false := by decide
 
 end wrap
+
+/-! ## Part (d): wrap files → which subproject provides a dependency -/
+section wrapfile
+open MesonModel.DepPolicy.WrapFile
+
+/-- **The provider table is a function.** For every file system, every directory listing (in any order) and every
+`wrapdb.json`: if `Resolver.load_wraps` succeeds, two wraps that declare the same dependency name (file name,
+`dependency_names`, `name = variable`, a bare directory's own name) are one and the same wrap … -/
+theorem provider_table_is_function (fs : FS) (fuel : Nat) (base : Path) (files dirs : List Str)
+    (wdb : List (Str × List Str × List Str)) (r : Resolver) (h : loadWraps fs fuel base files dirs wdb = .ok r)
+    (e1 e2 : Str × PkgDef) (h1 : e1 ∈ r.wraps) (h2 : e2 ∈ r.wraps) (k : Str)
+    (hk1 : k ∈ keys e1.2.providedDeps) (hk2 : k ∈ keys e2.2.providedDeps) : e1.2 = e2.2 := by
+  have hl := loadWraps_loaded fs fuel base files dirs wdb r h
+  have a := hl.provider e1 h1 k hk1
+  have b := hl.provider e2 h2 k hk2
+  rw [a] at b
+  exact Option.some.inj b
+
+/-- … in other words **a name declared by two different wraps makes the code raise** (`WrapException`
+'Multiple wrap files provide …'), whatever the order in which the wraps are registered -/
+theorem duplicate_provide_raises (ws : List PkgDef) (w1 w2 : PkgDef) (k : Str) (h1 : w1 ∈ ws) (h2 : w2 ∈ ws) (hne : w1 ≠ w2)
+    (hk1 : k ∈ keys w1.providedDeps) (hk2 : k ∈ keys w2.providedDeps) :
+    ∃ e, addAll ws ⟨[], []⟩ = .error e := by
+  cases h : addAll ws ⟨[], []⟩ with
+  | error e => exact ⟨e, rfl⟩
+  | ok t =>
+    have a := addAll_new ws _ t h w1 h1 k hk1
+    have b := addAll_new ws _ t h w2 h2 k hk2
+    rw [a] at b
+    exact absurd (Option.some.inj b) hne
+
+/-- **`find_dep_provider` names the wrap that declares the name** (lower-cased), with the variable that wrap gives:
+for a resolver in the state `load_wraps` leaves (`Loaded`), without `wrapdb.json`. -/
+theorem find_dep_provider_spec (r : Resolver) (hl : Loaded r) (hdb : r.wrapdbDeps = []) (n sp : Str) (v : Option Str) :
+    WrapFile.findDepProvider r n = (some sp, v) ↔
+      ∃ e ∈ r.wraps, e.2.name = sp ∧ lower n ∈ keys e.2.providedDeps ∧ v = getVar (lower n) e.2.providedDeps := by
+  unfold WrapFile.findDepProvider
+  simp only [hdb]
+  constructor
+  · intro h
+    cases hp : alookup (lower n) r.providedDeps with
+    | none => rw [hp] at h; simp [alookup] at h
+    | some w =>
+      rw [hp] at h
+      simp only [Prod.mk.injEq, Option.some.injEq] at h
+      rcases hl.sound _ _ hp with ⟨⟨e, he, hev⟩, hk⟩
+      exact ⟨e, he, by rw [hev]; exact h.1, by rw [hev]; exact hk, by rw [hev]; exact h.2.symm⟩
+  · rintro ⟨e, he, hname, hk, hv⟩
+    rw [hl.provider e he _ hk]
+    simp [hname, hv]
+
+/-- **Implicit provide**: every wrap `load_wraps` knows — `foo.wrap`, or a bare directory `foo` — is the provider
+of its own name (asked in any case: the query is lower-cased); and when the wrap file has nothing else to say
+(no `[provide]` entries) the answer carries no variable name. -/
+theorem implicit_provide (r : Resolver) (hl : Loaded r) (e : Str × PkgDef) (he : e ∈ r.wraps) (q : Str)
+    (hq : lower q = lower e.1) :
+    (WrapFile.findDepProvider r q).1 = some e.1 ∧
+    (e.2.providedDeps = [(lower e.1, none)] → WrapFile.findDepProvider r q = (some e.1, none)) := by
+  have ho := hl.own e he
+  have hk : lower e.1 ∈ keys e.2.providedDeps := by
+    have := ho.1; unfold OwnName at this; rw [ho.2] at this; exact this
+  have hp := hl.provider e he _ hk
+  unfold WrapFile.findDepProvider
+  simp only [hq, hp, ho.2]
+  refine ⟨trivial, ?_⟩
+  intro hdeps
+  simp [hdeps, getVar, alookup]
+
+/-- a wrap file without a `[provide]` section (and not a redirect) declares exactly its own lower-cased name -/
+theorem wrap_file_without_provide (fs : FS) (fuel : Nat) (dir : Path) (fname text ty : Str) (ini : Ini)
+    (vals : List (Str × Str)) (p : PkgDef)
+    (hr : readFile fs (dir ++ [fname]) = some text) (hp : parseWrap text = .ok (ini, ty, vals)) (hty : ty ≠ s "redirect")
+    (hnp : alookup (s "provide") ini.sections = none)
+    (h : fromWrapFile fs (fuel + 1) dir fname = .ok p) :
+    p.name = fname.take (fname.length - 5) ∧ p.providedDeps = [(lower (fname.take (fname.length - 5)), none)] := by
+  simp only [fromWrapFile, hr, hp, hty, if_false] at h
+  split at h
+  · cases h
+  · rename_i q hq
+    have hq' := mkPkg_own _ _ _ _ hq
+    unfold parseProvideSection at h
+    split at h
+    · cases h
+    · simp only [hnp] at h
+      cases h
+      exact ⟨hq'.1, hq'.2.1⟩
+
+/-- **The lookup's view of the wrap files is the Resolver's**: in a world whose `[provide]` table is the one derived
+from a loaded `Resolver`, `find_dep_provider` and `get_varname` as `DependencyFallbacksHolder.lookup` uses them answer
+what the Resolver's methods answer. -/
+theorem world_view_agrees (w : World) (r : Resolver) (hl : Loaded r) (hw : w.provides = providesOf r)
+    (hdb : r.wrapdbDeps = []) :
+    (∀ n, MesonModel.DepPolicy.findDepProvider w n = WrapFile.findDepProvider r n) ∧
+    (∀ sp dep, MesonModel.DepPolicy.getVarname w sp dep = WrapFile.getVarname r sp dep) := by
+  refine ⟨world_findDepProvider w r hw hdb, ?_⟩
+  intro sp dep
+  unfold MesonModel.DepPolicy.getVarname WrapFile.getVarname providesOf at *
+  rw [hw, alookup_map]
+  have hnone : ∀ p : PkgDef, alookup dep p.providedDeps = none → getVar dep p.providedDeps = none := by
+    intro p hp; simp [getVar, hp]
+  cases hd : alookup dep r.providedDeps with
+  | none =>
+    simp only [Option.map]
+    cases hs : alookup sp r.wraps with
+    | none => rfl
+    | some p =>
+      simp only []
+      have hmem := alookup_mem sp p r.wraps hs
+      cases hdp : alookup dep p.providedDeps with
+      | none => exact (hnone p hdp).symm
+      | some x =>
+        have := hl.provider (sp, p) hmem dep (mem_keys_of_alookup dep x _ hdp)
+        rw [hd] at this; cases this
+  | some v0 =>
+    simp only [Option.map]
+    rcases hl.sound _ _ hd with ⟨⟨e, he, hev⟩, hk⟩
+    have hoe := hl.own e he
+    cases hs : alookup sp r.wraps with
+    | none =>
+      simp only []
+      have : ¬ (v0.name = sp) := by
+        intro hname
+        have hkeys : sp ∈ keys r.wraps := by
+          refine List.mem_map.mpr ⟨e, he, ?_⟩
+          rw [← hoe.2, hev]; exact hname
+        have := alookup_isSome_of_mem_keys sp r.wraps hkeys
+        rw [hs] at this; cases this
+      simp [this]
+    | some p =>
+      simp only []
+      have hmem := alookup_mem sp p r.wraps hs
+      have hop := hl.own (sp, p) hmem
+      by_cases hname : v0.name = sp
+      · -- both are stored under `sp`: the same wrap, since each provides its own name
+        have hp1 : alookup (lower sp) r.providedDeps = some p := by
+          apply hl.provider (sp, p) hmem
+          have := hop.1; unfold OwnName at this; rw [hop.2] at this; exact this
+        have hp2 : alookup (lower sp) r.providedDeps = some v0 := by
+          have h2 := hl.provider e he (lower sp) (by
+            have := hoe.1; unfold OwnName at this; rw [hev, hname] at this; rw [hev]; exact this)
+          rw [hev] at h2; exact h2
+        rw [hp1] at hp2
+        have : p = v0 := Option.some.inj hp2
+        simp [hname, this]
+      · simp only [hname, if_false]
+        cases hdp : alookup dep p.providedDeps with
+        | none => exact (hnone p hdp).symm
+        | some x =>
+          have := hl.provider (sp, p) hmem dep (mem_keys_of_alookup dep x _ hdp)
+          rw [hd] at this
+          have hpv : v0 = p := Option.some.inj this
+          exact absurd (by rw [hpv]; exact hop.2) hname
+
+/-- **The fallback of the documented policy is the subproject named by the provider.** For wrap files that load, a
+world that sees them, and a required `dependency(n)` without `fallback:`/`allow_fallback: false`: if the Resolver's
+`find_dep_provider(n)` names `sp`, the plan of the decision table designates exactly `sp` (with the variable the wrap
+file gives) … -/
+theorem fallback_is_provider (w : World) (r : Resolver) (hw : w.provides = providesOf r) (hdb : r.wrapdbDeps = [])
+    (q : Request) (n sp : Str) (v : Option Str) (hn : q.names = [n]) (hlow : lower n = n) (hfb : q.fallback = none)
+    (hallow : q.allowFallback ≠ some false) (hreq : q.required = true)
+    (hp : WrapFile.findDepProvider r n = (some sp, v)) (hne : sp ≠ []) :
+    (plan w q).fallback = some (sp, v) := by
+  have h1 := world_findDepProvider w r hw hdb n
+  rw [hp] at h1
+  unfold MesonModel.DepPolicy.findDepProvider at h1
+  rw [hlow] at h1
+  have h2 : alookup n w.provides = some (sp, v) := by
+    cases ha : alookup n w.provides with
+    | none => rw [ha] at h1; simp at h1
+    | some x => rw [ha] at h1; rcases x with ⟨a, b⟩; simp at h1; rw [h1.1, h1.2]
+  have hemp : sp.isEmpty = false := by cases sp with | nil => exact absurd rfl hne | cons a b => rfl
+  have hal : (allowOf q == some false) = false := by
+    unfold allowOf; simp [hfb]; exact hallow
+  unfold plan explicitFallback
+  simp only [hfb, hal, hn, firstProvider, h2, hemp, hreq]
+  simp
+
+/-- … and `DependencyFallbacksHolder.lookup` returns what the decision table prescribes with that plan
+(`lookup_eq_policy`): the answer comes from the provider's subproject or — unless fallback is forced — the system. -/
+theorem lookup_uses_provider (sat : Str → List Str → Bool) (w : World) (r : Resolver) (hw : w.provides = providesOf r)
+    (hdb : r.wrapdbDeps = [])
+    (q : Request) (n sp : Str) (v : Option Str) (hn : q.names = [n]) (hlow : lower n = n) (hfb : q.fallback = none)
+    (hallow : q.allowFallback ≠ some false) (hreq : q.required = true) (hok : namesOk q.names = true)
+    (hp : WrapFile.findDepProvider r n = (some sp, v)) (hne : sp ≠ []) :
+    ∃ p : Plan, p.fallback = some (sp, v) ∧
+      (lookup sat w q).out.simplify = (decide sat w q p).1 ∧ (lookup sat w q).world = (decide sat w q p).2 := by
+  refine ⟨plan w q, fallback_is_provider w r hw hdb q n sp v hn hlow hfb hallow hreq hp hne, ?_⟩
+  have hwf : WellFormed q := by intro x hx; rw [hn] at hx; simp at hx; rw [hx]; exact hlow
+  have h := lookup_eq_policy sat w q hwf
+  have hpol : policy sat w q = decide sat w q (plan w q) := by
+    unfold policy fallbackArgOk
+    simp [hok, hfb]
+  rw [hpol] at h
+  exact h
+
+/-- **Wraps merged from a subproject's own `subprojects/` never displace an existing provider** (`merge_wraps`,
+`ignore_dups=True`: the first wins) — except the entry of a bare directory that a merged wrap file now describes
+(the documented replacement in `merge_wraps`). -/
+theorem merged_wraps_never_displace (ws : List (Str × PkgDef)) (r r' : Resolver) (h : mergeWraps ws r = .ok r')
+    (key : Str) (w : PkgDef) (hk : alookup key r.providedDeps = some w) (hne : ∀ e ∈ ws, key ≠ lower e.2.directory) :
+    alookup key r'.providedDeps = some w :=
+  mergeWraps_old ws r r' h key w hk hne
+
+/-! non-vacuity, from file *texts*: `foosub.wrap` with a `[provide]` section, `bar.wrap` without -/
+
+def fooWrapText : Str :=
+  "[wrap-file]\ndirectory = foo-1.0\n# the archive\nsource_url = https://example.invalid/foo.tgz\n\n[provide]\ndependency_names = foo-1.0, Foo\nfoovar : foo_dep\nprogram_names = fooprog\n".toList
+def barWrapText : Str := "[wrap-git]\nurl=https://example.invalid/bar.git\n".toList
+def fs0 : FS := [(["foosub.wrap".toList], fooWrapText), (["bar.wrap".toList], barWrapText)]
+def rv0 : Except WErr Resolver := loadWraps fs0 4 [] ["bar.wrap".toList, "foosub.wrap".toList, "README".toList] ["foo-1.0".toList, "extra".toList] []
+
+example : (rv0.toOption.map (fun r => (keys r.wraps, keys r.providedDeps, keys r.providedPrograms)))
+    = some (["bar".toList, "foosub".toList, "extra".toList],
+            ["bar".toList, "foosub".toList, "foo-1.0".toList, "foo".toList, "foovar".toList, "extra".toList],
+            ["fooprog".toList]) := by decide +kernel
+example : rv0.toOption.map (fun r => (WrapFile.findDepProvider r "FOO".toList, WrapFile.findDepProvider r "foovar".toList))
+    = some ((some "foosub".toList, none), (some "foosub".toList, some "foo_dep".toList)) := by decide +kernel
+example : rv0.toOption.map (fun r => (WrapFile.findDepProvider r "bar".toList, WrapFile.findDepProvider r "nosuch".toList))
+    = some ((some "bar".toList, none), (none, none)) := by decide +kernel
+example : rv0.toOption.map (fun r => findProgramProvider r ["x".toList, "fooprog".toList]) = some (some "foosub".toList) := by
+  decide +kernel
+/-- two wrap files declaring `foo`: the load raises -/
+example : (loadWraps ((["foo.wrap".toList], barWrapText) :: fs0) 4 [] ["foo.wrap".toList, "foosub.wrap".toList] [] []).toOption = none := by
+  decide +kernel
+/-- text → tables → world → `dependency('foo')`: the provider's subproject is configured and answers -/
+example : rv0.toOption.map (fun r =>
+      let res := lookup (fun _ _ => true) { w0 with provides := providesOf r } r0
+      (res.out, res.trace)) =
+    some (.found dFoo, [.cacheGet "foo".toList, .system "foo".toList, .doSubproject "foosub".toList, .configure "foosub".toList]) := by
+  decide +kernel
+
+end wrapfile
 
 end MesonModel.Props.C10
